@@ -14,3 +14,12 @@ Definition farb (d : nat) (b : board) : bool :=
 Definition soundb (T : ztable) (rook_t bishop_t : N -> N -> N) (d : nat) (b : board) : bool :=
   invb rook_t bishop_t b && legal_materialb (white b) && legal_materialb (black b)
   && farb d b && (hash b =? key_of T (abstract b)).
+
+(* the wide domain of the cache-free search theorems (ReachWide.SoundW): no counter overflows *)
+Definition wideb (d : nat) (b : board) : bool :=
+  nonempty (hm_stack b) && (hd 0 (hm_stack b) + N.of_nat d <? U8_MAX)
+  && nonempty (seen_stack b) && (fullmove b + N.of_nat d <? FULLMOVE_MAX).
+
+Definition soundWb (T : ztable) (rook_t bishop_t : N -> N -> N) (d : nat) (b : board) : bool :=
+  invb rook_t bishop_t b && legal_materialb (white b) && legal_materialb (black b)
+  && wideb d b && (hash b =? key_of T (abstract b)).
